@@ -1,9 +1,9 @@
 #!/bin/bash
 # devrun.sh PROP [budget_s] [seed]: build worker in dev scratch and run one worker
 S=/var/tmp/verif-scratch/${VERIF_DEV:-dev}
-/verif/sim/dev.sh test -c -o $S/worker.test . || exit 2
+${VERIF_HOME:-/verif}/sim/dev.sh test -c -o $S/worker.test . || exit 2
 mkdir -p $S/replays $S/runs
-cd $S && VERIF_PROP=$1 VERIF_SEED=${3:-1} VERIF_BUDGET_S=${2:-10} VERIF_SCRATCH=$S/runs VERIF_REPLAY_DIR=$S/replays VERIF_KNOWN=${VERIF_KNOWN-/verif/known_findings.json} env ${VERIF_ENV:-} ./worker.test -test.run TestWorker > $S/out.jsonl 2> $S/err.txt
+cd $S && VERIF_PROP=$1 VERIF_SEED=${3:-1} VERIF_BUDGET_S=${2:-10} VERIF_SCRATCH=$S/runs VERIF_REPLAY_DIR=$S/replays VERIF_KNOWN=${VERIF_KNOWN-${VERIF_HOME:-/verif}/known_findings.json} env ${VERIF_ENV:-} ./worker.test -test.run TestWorker > $S/out.jsonl 2> $S/err.txt
 python3 - <<PY
 import json
 n=0;v=[];infra=[];k={}
